@@ -413,7 +413,8 @@ TIES = {
     'C05': ('SrcTc.v', ['PyPrelude', 'PgmState', 'PureState', 'SrcTc', 'EquivTc'], 'EquivTc'),
     'C06': [('SrcTc.v', ['PyPrelude', 'PgmState', 'PureState', 'SrcTc', 'EquivTc'], 'EquivTc'),
             ('SrcFc.v', ['PyPrelude', 'PgmState', 'PureState', 'LineTok', 'PgmSrc', 'PgmEquiv', 'FcState', 'SrcFc', 'EquivFc'], 'EquivFc')],
-    'C16': ('SrcDev.v', ['PyPrelude', 'PgmState', 'AeState', 'SrcAe', 'EquivAe', 'DevState', 'SrcDev', 'EquivDev'], ['EquivAe', 'EquivDev']),
+    'C16': [('SrcDev.v', ['PyPrelude', 'PgmState', 'AeState', 'SrcAe', 'EquivAe', 'DevState', 'SrcDev', 'EquivDev'], ['EquivAe', 'EquivDev']),
+            ('SrcHl.v', ['PyPrelude', 'PgmState', 'AeState', 'SrcHl', 'EquivHl'], 'EquivHl')],
     'C07': ('SrcTr.v', ['PyPrelude', 'PgmState', 'TrState', 'SrcTr', 'EquivTr'], 'EquivTr'),
 }
 TIE_NEEDS = {'SrcWr.v': ['pgm'], 'SrcFc.v': ['pgm'], 'SrcDev.v': ['SrcAe.v']}      # other generated files a group builds on
